@@ -37,7 +37,7 @@ func checkC11(c *Ctx) {
 	if !c.Anchor("R11.1", "zapcore.sampler.Check", fn != nil) {
 		return
 	}
-	name := fn.String()
+	name := FStr(fn)
 	minL, _ := c.ConstVal(CorePath, "_minLevel")
 	maxL, _ := c.ConstVal(CorePath, "_maxLevel")
 	// table dimensions
@@ -472,11 +472,11 @@ func c11Shared(c *Ctx) {
 	rn := PN(w.Params[0])
 	ok := okW && setting(got, rn, "counts") == rn+".counts" && setting(got, rn, "tick") == rn+".tick" && strings.HasPrefix(setting(got, rn, "first"), rn+".") && strings.HasSuffix(setting(got, rn, "first"), ".first") &&
 		strings.HasPrefix(setting(got, rn, "thereafter"), rn+".") && strings.HasSuffix(setting(got, rn, "thereafter"), ".thereafter") && setting(got, rn, "hook") == rn+".hook" && setting(got, rn, samplerCoreField(c)) == "With("+rn+"."+samplerCoreField(c)+", "+PN(w.Params[1])+")"
-	c.Check(ok, "R11.3", w.String(), "shares-budget", w.Pos(), "a derived sampler points at the SAME counters and keeps tick/first/thereafter/hook (%v)", got)
+	c.Check(ok, "R11.3", FStr(w), "shares-budget", w.Pos(), "a derived sampler points at the SAME counters and keeps tick/first/thereafter/hook (%v)", got)
 	got, okN := settings(nw)
 	fresh := func(d string) bool { return d == "<fresh>" }
 	ok = okN && fresh(setting(got, "", "counts")) && strings.HasSuffix(setting(got, "", "hook"), "nopSamplingHook") && setting(got, "", "first") == "conv[uint64]("+PN(nw.Params[2])+")" && setting(got, "", "thereafter") == "conv[uint64]("+PN(nw.Params[3])+")" && setting(got, "", "tick") == PN(nw.Params[1]) && setting(got, "", samplerCoreField(c)) == PN(nw.Params[0])
-	c.Check(ok, "R11.3", nw.String(), "constructor", nw.Pos(), "the constructor allocates one counter table, defaults the hook to the no-op and stores tick/first/thereafter as given (%v)", got)
+	c.Check(ok, "R11.3", FStr(nw), "constructor", nw.Pos(), "the constructor allocates one counter table, defaults the hook to the no-op and stores tick/first/thereafter as given (%v)", got)
 	c11CtorOK, c11CtorGot = ok, fmt.Sprint(got)
 }
 
@@ -583,7 +583,7 @@ func c11Key(c *Ctx, minL int64) {
 			detail = "index from " + itoa(int(seed-wantSeed)) + " step " + itoa(int(step)) + " while " + cond
 		}
 	}
-	c.Check(okLoop && !usesRange, "R11.5", h.String(), "hashes-every-byte", h.Pos(), "the hash consumes the byte at every index in [0, len(s)) (%s; a range-over-string loop would visit only rune starts: %v)", detail, usesRange)
+	c.Check(okLoop && !usesRange, "R11.5", FStr(h), "hashes-every-byte", h.Pos(), "the hash consumes the byte at every index in [0, len(s)) (%s; a range-over-string loop would visit only rune starts: %v)", detail, usesRange)
 	// FNV-1a constants
 	off, prime := false, false
 	AllInstrs(h, func(i ssa.Instruction) {
@@ -600,7 +600,7 @@ func c11Key(c *Ctx, minL int64) {
 			}
 		}
 	})
-	c.Check(off && prime, "R11.5", h.String(), "fnv-constants", h.Pos(), "FNV-1a 32-bit offset basis and prime")
+	c.Check(off && prime, "R11.5", FStr(h), "fnv-constants", h.Pos(), "FNV-1a 32-bit offset basis and prime")
 }
 
 func c11Window(c *Ctx) {
@@ -608,7 +608,7 @@ func c11Window(c *Ctx) {
 	if !c.Anchor("R11.8", "zapcore.counter.IncCheckReset", fn != nil) {
 		return
 	}
-	name := fn.String()
+	name := FStr(fn)
 	t := fn.Params[1]
 	tn := "UnixNano(" + PN(t) + ")"
 	if TypeName(t.Type()) == "int64" {
@@ -821,7 +821,7 @@ func c11Config(c *Ctx) {
 		}
 	})
 	if nw := c.Func(CorePath, "NewSamplerWithOptions"); nw != nil {
-		c.Check(c11CtorOK, "R11.9", nw.String(), "parameters-to-fields", nw.Pos(), "the constructor stores tick, first, thereafter into the settings of the same name (%s)", c11CtorGot)
+		c.Check(c11CtorOK, "R11.9", FStr(nw), "parameters-to-fields", nw.Pos(), "the constructor stores tick, first, thereafter into the settings of the same name (%s)", c11CtorGot)
 	}
 	if n == 0 {
 		c.Bad("R11.9", "sampler constructors", "count", token.NoPos, "no call of NewSampler/NewSamplerWithOptions found")
@@ -836,19 +836,19 @@ func c11Stamped(c *Ctx, rule string) {
 	if !c.Anchor(rule, "zap.Logger.check", fn != nil) {
 		return
 	}
-	name := fn.String()
+	name := FStr(fn)
 	nChecks := 0
 	seqs, trunc := ConcPaths(fn, ConcCfg{
 		Prune: true,
 		Event: func(in ssa.Instruction, st *ConcState) string {
 			x, ok := in.(*ssa.Call)
-			if !ok || !x.Call.IsInvoke() || x.Call.Method.Name() != "Check" || !IsCallTo(x, "(go.uber.org/zap/zapcore.Core).Check") || len(x.Call.Args) < 1 {
+			if !ok || !x.Call.IsInvoke() || FNm(x.Call.Method) != "Check" || !IsCallTo(x, "(go.uber.org/zap/zapcore.Core).Check") || len(x.Call.Args) < 1 {
 				return ""
 			}
 			nChecks++
 			_, _, v := st.FieldOf(x.Call.Args[0], "Time")
 			for k := 0; k < 12 && v != nil; k++ {
-				if cl, ok := Strip(v).(*ssa.Call); ok && cl.Call.IsInvoke() && cl.Call.Method.Name() == "Now" {
+				if cl, ok := Strip(v).(*ssa.Call); ok && cl.Call.IsInvoke() && FNm(cl.Call.Method) == "Now" {
 					return "check(stamped)"
 				}
 				v = st.Step(Strip(v))
@@ -956,14 +956,14 @@ func c11CheckedMessageFinal(c *Ctx, rule string) {
 				f := fieldName(fa.X.Type(), fa.Field)
 				switch {
 				case isCE(fa.X.Type()) && f == "Entry":
-					if IsFresh(fa.X) {
-						return
+					if IsFresh(fa.X) || fromPoolOrFresh(fa.X, 0) {
+						return // a checked entry that is being made, not one a core has decided on
 					}
 					n++
 					bad = append(bad, FuncKey(g)+": "+Desc(st.Addr)+" = "+Desc(st.Val)+" at "+c.Pos(st.Pos()))
 				case keyed[f]:
 					in, ok := fa.X.(*ssa.FieldAddr)
-					if ok && isCE(in.X.Type()) && fieldName(in.X.Type(), in.Field) == "Entry" {
+					if ok && isCE(in.X.Type()) && fieldName(in.X.Type(), in.Field) == "Entry" && !fromPoolOrFresh(in.X, 0) {
 						n++
 						bad = append(bad, FuncKey(g)+": "+Desc(st.Addr)+" = "+Desc(st.Val)+" at "+c.Pos(st.Pos()))
 					}
@@ -972,6 +972,36 @@ func c11CheckedMessageFinal(c *Ctx, rule string) {
 		}
 	})
 	c.Check(len(bad) == 0, rule, CorePath+".CheckedEntry", "keyed-parts-final", ce.Obj().Pos(), "outside CheckedEntry's own methods nothing assigns the Message, Level, Time, LoggerName (or the whole Entry) of a checked entry: %v", bad)
+}
+
+// fromPoolOrFresh: v is an object this function allocated, took from a pool, or got from a function of the module
+// that hands out nothing else.
+func fromPoolOrFresh(v ssa.Value, depth int) bool {
+	if depth > 3 {
+		return false
+	}
+	switch x := Strip(v).(type) {
+	case *ssa.Alloc:
+		return x.Heap
+	case *ssa.Call:
+		if IsCallTo(x, poolGet) {
+			return true
+		}
+		sc := x.Call.StaticCallee()
+		if sc == nil || !curProgRoot(sc) || len(sc.Blocks) == 0 || x.Call.IsInvoke() {
+			return false
+		}
+		n := 0
+		for _, r := range Returns(sc) {
+			rv := RetVals(r)
+			if len(rv) != 1 || !fromPoolOrFresh(rv[0], depth+1) {
+				return false
+			}
+			n++
+		}
+		return n > 0
+	}
+	return false
 }
 
 // c11QueriesNeverCheck: asking whether a level is enabled decides no entry: no Enabled / Level / V method of the module
@@ -983,7 +1013,7 @@ func c11QueriesNeverCheck(c *Ctx, rule string) {
 		if fn.Parent() != nil || fn.Signature.Recv() == nil {
 			return
 		}
-		switch fn.Name() {
+		switch FNm(fn) {
 		case "Enabled", "Level", "V":
 		default:
 			return
